@@ -913,6 +913,75 @@ class Model:
         cache[id(fd)] = new
         return new
 
+    def unrolled(self, fd):
+        """A copy of ``fd`` in which a loop over a short literal table (`for a, b in
+        ((x1, y1), (x2, y2)): BODY`, no break/continue/else) is written out: BODY once
+        per row with the row's entries substituted for the loop variables.  Dispatch
+        through a table and the if/elif chain it stands for become the same code."""
+        cache = self.__dict__.setdefault("_unroll_cache", {})
+        if id(fd) in cache:
+            return cache[id(fd)]
+        new = _cp(fd)
+
+        def rows_of(it, ntargets):
+            if not isinstance(it, (ast.Tuple, ast.List)) or not (1 <= len(it.elts) <= 8):
+                return None
+            rows = []
+            for e in it.elts:
+                if ntargets == 1:
+                    rows.append([e])
+                elif isinstance(e, (ast.Tuple, ast.List)) and len(e.elts) == ntargets:
+                    rows.append(list(e.elts))
+                else:
+                    return None
+            if not all(_plain(x) and not any(isinstance(y, ast.Call) for y in ast.walk(x))
+                       for r in rows for x in r):
+                return None
+            return rows
+
+        def rewrite(stmts):
+            out = []
+            for st in stmts:
+                for fld in ("body", "orelse", "finalbody"):
+                    blk = getattr(st, fld, None)
+                    if isinstance(blk, list) and blk and isinstance(blk[0], ast.stmt) \
+                            and not isinstance(st, (ast.FunctionDef, ast.ClassDef)):
+                        setattr(st, fld, rewrite(blk))
+                for h in getattr(st, "handlers", []):
+                    h.body = rewrite(h.body)
+                if isinstance(st, ast.For) and not st.orelse:
+                    tg = st.target.elts if isinstance(st.target, ast.Tuple) else [st.target]
+                    if all(isinstance(t, ast.Name) for t in tg):
+                        rows = rows_of(st.iter, len(tg))
+                        names = [t.id for t in tg]
+                        jumps = any(isinstance(x, (ast.Break, ast.Continue))
+                                    for b in st.body for x in _walk_same_scope(b))
+                        rebound = any(isinstance(x, ast.Name) and x.id in names
+                                      and isinstance(x.ctx, (ast.Store, ast.Del))
+                                      for b in st.body for x in ast.walk(b))
+                        if rows is not None and not jumps and not rebound:
+                            for r in rows:
+                                sub = dict(zip(names, r))
+
+                                class S_(ast.NodeTransformer):
+                                    def visit_Name(self, x, sub=sub):
+                                        if x.id in sub and isinstance(x.ctx, ast.Load):
+                                            return _cp(sub[x.id])
+                                        return x
+                                out += [S_().visit(_cp(b)) for b in st.body]
+                            continue
+                out.append(st)
+            return out
+        new.body = rewrite(new.body)
+        ast.fix_missing_locations(new)
+        for p_ in ast.walk(new):
+            for ch in ast.iter_child_nodes(p_):
+                ch._parent = p_
+        new._parent = getattr(fd, "_parent", None)
+        new._derived = True
+        cache[id(fd)] = new
+        return new
+
     def normal(self, fd):
         """``fd`` with private helpers inlined, single-assignment locals propagated
         and fill-loops written as comprehensions: the form in which 'extract
@@ -921,8 +990,13 @@ class Model:
         cache = self.__dict__.setdefault("_normal_cache", {})
         if id(fd) not in cache:
             from pta.pat import canon
-            cache[id(fd)] = self.fold_constants(canon(self.expand_locals(self.comprehensions(
-                self.expand_locals(self.inlined(fd))))))
+            first = self.expand_locals(self.inlined(fd))
+            un = self.unrolled(first)
+            if ast.dump(un) != ast.dump(first):
+                # a table loop was written out: its rows may name helpers to inline
+                first = self.expand_locals(self.inlined(un))
+            cache[id(fd)] = self.fold_constants(canon(self.expand_locals(
+                self.comprehensions(first))))
         return cache[id(fd)]
 
     def split_tuples(self, fd):
@@ -971,6 +1045,37 @@ class Model:
             def visit_Name(self, x):
                 if isinstance(x.ctx, ast.Load) and x.id in consts and x.id not in local:
                     return ast.copy_location(_cp(consts[x.id]), x)
+                return x
+
+            def visit_Compare(self, x):
+                self.generic_visit(x)
+                # <literal> is None / is not None
+                if len(x.ops) == 1 and isinstance(x.ops[0], (ast.Is, ast.IsNot)) \
+                        and isinstance(x.left, ast.Constant) \
+                        and isinstance(x.comparators[0], ast.Constant) \
+                        and x.comparators[0].value is None:
+                    v = (x.left.value is None) == isinstance(x.ops[0], ast.Is)
+                    return ast.copy_location(ast.Constant(value=v), x)
+                return x
+
+            def visit_BoolOp(self, x):
+                self.generic_visit(x)
+                is_and = isinstance(x.op, ast.And)
+                vals = []
+                for v in x.values:
+                    if isinstance(v, ast.Constant) and isinstance(v.value, bool):
+                        if v.value == is_and:
+                            continue            # neutral element
+                        if not vals:
+                            return ast.copy_location(ast.Constant(value=v.value), x)
+                        vals.append(v)          # absorbing, but earlier operands run first
+                        break
+                    vals.append(v)
+                if not vals:
+                    return ast.copy_location(ast.Constant(value=is_and), x)
+                if len(vals) == 1:
+                    return vals[0]
+                x.values = vals
                 return x
 
             def visit_Call(self, x):
